@@ -316,8 +316,32 @@ class Interp:
             if not is_str(s): raise LuaError("'tostring' must return a string to 'print'", "type")
             parts.extend([s] if isinstance(s, str) else s.parts)
         parts = norm_rope(parts)
-        self.events.append(("print", "".join(parts) if all(isinstance(p, str) for p in parts) else SStr(parts)))
+        text = "".join(parts) if all(isinstance(p, str) for p in parts) else SStr(parts)
+        self.events.append(("print", self.snapshot(a[0]) if len(a) == 1 else ("multi", [self.snapshot(x) for x in a]), text))
         return []
+    def snapshot(self, v, depth=0):
+        """abstraction from Lua runtime values to Sylt values (by the runtime's own `_type` tags)"""
+        if depth > 8: return ("deep",)
+        if v is None: return ("luanil",)
+        if isinstance(v, (bool, SBool)): return ("bool", v)
+        if is_int(v): return ("int", v)
+        if is_float(v): return ("float", v)
+        if is_str(v): return ("str", v)
+        if isinstance(v, Table):
+            if v is self.G.d.get("__NIL"): return ("nil",)
+            ty = v.meta.d.get("_type") if v.meta is not None else None
+            if ty in ("tuple", "list"):
+                n = self.length(v, raw=True)
+                return (ty, [self.snapshot(self.rawget(v, i), depth + 1) for i in range(1, n + 1)])
+            if ty == "blob":
+                return ("blob", {k: self.snapshot(x, depth + 1) for k, x in v.d.items() if isinstance(k, str) and not isinstance(x, (Func, Builtin))})
+            if ty == "variant":
+                return ("variant", self.rawget(v, 1), self.snapshot(self.rawget(v, 2), depth + 1))
+            if ty in ("dict", "set"):
+                self.order_dependent = True
+                return (ty, [(self.snapshot(k, depth + 1), self.snapshot(x, depth + 1)) for k, x in v.d.items()])
+            return ("table", v.id)
+        return ("fn",)
     def lua_error(self, msg=None, *_):
         raise LuaError(msg, "error")
     def tonumber(self, v=None, base=None):
